@@ -332,6 +332,7 @@ type vWorld struct {
 	log     []string // per-operation observation log
 	seg     []string
 	resCyc  bool
+	statCyc bool
 	permCyc bool
 
 	// symbolic clock (C20)
